@@ -24,6 +24,17 @@ Theorem layer_is_analytic_shell : forall c rs p k, (k < length rs)%nat ->
 Proof. exact layer_shell. Qed.
 Print Assumptions layer_is_analytic_shell.
 
+(* LayeredSphere (thickness description): radii are the prefix sums, hence ascending, hence the shell theorem applies *)
+Theorem layered_sphere_radii : forall ts k, (k < length ts)%nat ->
+  nth k (layered_radii RO ts) 0 = sumR (firstn (S k) ts).
+Proof. exact layered_radii_nth. Qed.
+Print Assumptions layered_sphere_radii.
+Theorem layered_sphere_radii_ascending : forall ts, Forall (fun t => 0 <= t) ts ->
+  forall i j, (i <= j < length (layered_radii RO ts))%nat ->
+     0 <= nth i (layered_radii RO ts) 0 <= nth j (layered_radii RO ts) 0.
+Proof. exact layered_radii_ascending. Qed.
+Print Assumptions layered_sphere_radii_ascending.
+
 Theorem index_at_gives_layer_index : forall (N : Type) (ns : list N) bg,
   index_at ns bg 0 = bg /\ forall k, (k < length ns)%nat -> index_at ns bg (Z.of_nat k + 1) = nth k ns bg.
 Proof. intros N ns bg. split; [apply index_at_outside|intros k; apply index_at_layer]. Qed.
